@@ -18,5 +18,9 @@ cleanup() {
   if [ "${MUTANT_CLEAN:-0}" = "1" ]; then rm -rf "$tdir"; fi
 }
 trap cleanup EXIT
-if ! git -C "$wt" apply "$patch"; then echo "patch does not apply"; exit 2; fi
+# patches are recorded against the commit they were written for; later add-only hook lines may shift
+# their context, so fall back to a fuzzy apply before giving up
+if ! git -C "$wt" apply "$patch" 2>/dev/null; then
+  if ! (cd "$wt" && patch -p1 -s -F 3 --no-backup-if-mismatch < "$patch"); then echo "patch does not apply"; exit 2; fi
+fi
 cd /verif && VERIF_REPO="$wt" VERIF_EVIDENCE_DIR="$wt/.evidence" VERIF_REPLAY_DIR="${VERIF_REPLAY_DIR:-/verif/replays/mutants}" ./check "$prop" "$tier"
